@@ -448,3 +448,9 @@ package oidc
 // the factory's stores are created at start-up (PreRun, before serving) and only read afterwards
 //@ frozen field sessionStoreFactory.redis
 //@ frozen field sessionStoreFactory.memory
+
+// the key source in a fault-free run (C03, variant live)
+//@ interface JWKSProvider method Get(self, ctx, cfg) (set, err)
+//@   variant live
+//@   #allocates
+//@   ensures  keys: err == nil && set != nil && KeysFrom(cfg, set)
